@@ -375,6 +375,44 @@ func (g *gen) floatLit() string {
 	return s
 }
 
+// intLit draws an unsigned literal in and around the language of
+// big.Int.SetString(lit, 0): every base prefix in both cases, a bare leading
+// zero, underscores in valid and invalid places, digits beyond the base.
+func (g *gen) intLit() string {
+	r := g.r
+	type form struct {
+		prefix string
+		base   int
+	}
+	f := hx.Pick(r, []form{{"", 10}, {"", 10}, {"0x", 16}, {"0X", 16}, {"0b", 2}, {"0B", 2}, {"0o", 8}, {"0O", 8},
+		{"0", 8}, {"00", 8}, {"0", 10}, {"0", 16}, {"0x", 10}, {"", 16}, {"", 8}})
+	body := strconv.FormatUint(r.U64()>>uint(r.Intn(64)), f.base)
+	if r.Intn(4) == 0 {
+		body = strings.ToUpper(body)
+	}
+	switch r.Intn(10) {
+	case 0: // separators between digits
+		if len(body) > 1 {
+			k := 1 + r.Intn(len(body)-1)
+			body = body[:k] + "_" + body[k:]
+		}
+	case 1:
+		body = "_" + body // valid after a prefix, invalid at the start
+	case 2:
+		body += "_"
+	case 3:
+		if len(body) > 1 {
+			k := 1 + r.Intn(len(body)-1)
+			body = body[:k] + "__" + body[k:]
+		}
+	case 4:
+		body = ""
+	case 5:
+		body += hx.Pick(r, []string{"8", "9", "a", "g", "z", "G", ".", "-", " ", "e5", "x1", "2"})
+	}
+	return f.prefix + body
+}
+
 func main() {
 	log.SetOutput(io.Discard)
 	f := hx.ParseFlags()
@@ -481,8 +519,7 @@ func main() {
 				g.add("floatok " + hx.Hex([]byte(g.floatLit())))
 				rep.Count("contract:parse-float")
 			case 4:
-				lit := hx.Pick(g.r, []string{"0x", "0", "00", "0", "", "0x0", "07", "08", "1"}) + strconv.FormatUint(g.r.U64()>>uint(g.r.Intn(64)), hx.Pick(g.r, []int{8, 10, 16}))
-				g.add("goint " + hx.Hex([]byte(lit)))
+				g.add("goint " + hx.Hex([]byte(g.intLit())))
 				rep.Count("contract:big-int")
 			default:
 				bs, _ := json.Marshal(g.g.Value(3))
